@@ -100,12 +100,13 @@ impl<'a> Session<'a> {
             Err(m) => self.panic_event("new", &m),
         }
     }
+    /// code = u32::MAX stands for the sample -0.0 (equal to 0.0, the lower end of the input range)
     pub fn poll(&mut self, code: u32) {
         if !self.alive {
             return;
         }
         let r = self.rib.as_mut().unwrap();
-        let x = code as f32 / 4096.0;
+        let (x, code) = if code == u32::MAX { (-0.0f32, 0) } else { (code as f32 / 4096.0, code) };
         match guarded(|| {
             r.poll(x);
             (r.pressing(), r.value())
@@ -152,7 +153,13 @@ impl<'a> Session<'a> {
         for i in 0..n {
             let code = match style {
                 0 => base,
-                1 => rng.below(self.thr as u64) as u32,
+                1 => {
+                    if rng.chance(1, 60) {
+                        u32::MAX // the sample -0.0
+                    } else {
+                        rng.below(self.thr as u64) as u32
+                    }
+                }
                 2 => ((base as usize + i * 7) % self.thr as usize) as u32,
                 _ => {
                     if i % 2 == 0 {
@@ -362,12 +369,12 @@ pub fn drive_extreme(s: &mut Session, rng: &mut Rng) {
             s.start(fs, ri);
             let need = s.need;
             let thr = s.thr;
-            let codes = [0u32, 4096, thr - 1, thr, 1, 4095];
+            let codes = [0u32, 4096, thr - 1, thr, 1, 4095, u32::MAX];
             for _ in 0..(need / 2 + 10).min(400) {
                 s.poll(*rng.pick(&codes));
             }
             for _ in 0..(need + 3) {
-                s.poll(if rng.chance(1, 2) { 0 } else { thr - 1 });
+                s.poll(*rng.pick(&[0u32, thr - 1, u32::MAX]));
             }
             s.jp();
             s.poll(4096);
